@@ -65,7 +65,7 @@ def inspect(workspace, output_file, measurement):
         spec = json.load(specstream)
 
     ws = Workspace(spec)
-    default_measurement = ws.get_measurement()
+    default_measurement = ws.get_measurement(measurement_name=measurement)
 
     result = {}
     result['samples'] = ws.samples
@@ -80,7 +80,7 @@ def inspect(workspace, output_file, measurement):
         parameters.paramsets.constrained_by_poisson: 'constrained_by_poisson',
     }
 
-    model = ws.model()
+    model = ws.model(measurement_name=measurement)
 
     result['parameters'] = sorted(
         (parset_name, parset_descr[type(parset_spec['paramset'])])
